@@ -108,7 +108,14 @@ def main(argv):
         try:
             signal.setitimer(signal.ITIMER_PROF, float(req.get("soft", 10.0)))
             try:
-                out = SVG.fromstring(doc).topicosvg().tostring()
+                svg = SVG.fromstring(doc)
+                if req.get("route") == "check-then-convert":
+                    # the build-tool idiom "is it a picosvg already? else convert", on one object; the conversion is
+                    # run in either case so that the outcome contract is the same as for the plain route
+                    svg.checkpicosvg()
+                    out = svg.topicosvg().tostring()
+                else:
+                    out = svg.topicosvg().tostring()
             finally:
                 signal.setitimer(signal.ITIMER_PROF, 0)
             res["out"] = out if len(out) <= MAX_OUT else out[:MAX_OUT]
